@@ -95,14 +95,24 @@ Proof.
   rewrite !map_map in P. exact P.
 Qed.
 
-Theorem win_replay_full (sub : path -> tree) (before : fs) (o : op) :
+(* operations for which the emitter walks a directory (os.walk) to synthesise events *)
+Definition walks (o : op) : bool :=
+  match o with OMkdir _ _ | ORename _ _ | OMoveIn _ _ _ _ => true | _ => false end.
+
+(* the tree the emitter walked for operation o lists (as a set) what lies below o's target *)
+Definition covers (sub : path -> tree) (after : fs) (o : op) : Prop :=
+  walks o = true ->
+  Permutation (map (fun x => (snd x, fst x)) (desc [] (sub (target o)))) (below after (target o)).
+
+Theorem win_replay_cov (sub : path -> tree) (before : fs) (o : op) :
   closed_fs before -> op_names_ok o = true -> op_ok before o = true ->
   let after := apply_op before o in
-  Permutation (map (fun x => (snd x, fst x)) (desc [] (sub (target o)))) (below after (target o)) ->
+  covers sub after o ->
   Permutation (replay (view_of before) (win_contract sub true after o)) (view_of after).
 Proof.
-  intros C Hn Ho after P.
-  destruct o as [p i|p i|p|p|p|p|s d|s|d k i content]; cbn [target] in P; subst after; cbn [win_contract].
+  intros C Hn Ho after Hc. unfold covers in Hc.
+  destruct o as [p i|p i|p|p|p|p|s d|s|d k i content]; cbn [target walks] in Hc;
+    try (pose proof (Hc eq_refl) as P; clear Hc); subst after; cbn [win_contract].
   - cbn [apply_op]. unfold view_of. rewrite map_app. apply Permutation_refl.
   - (* mkdir: the new directory is empty *)
     assert (Hp : p <> []) by (cbn [op_names_ok] in Hn; now apply path_ok_split in Hn).
@@ -130,6 +140,13 @@ Proof.
       rewrite below_after_movein in P by assumption. now apply perm_prefix.
 Qed.
 
+Theorem win_replay_full (sub : path -> tree) (before : fs) (o : op) :
+  closed_fs before -> op_names_ok o = true -> op_ok before o = true ->
+  let after := apply_op before o in
+  Permutation (map (fun x => (snd x, fst x)) (desc [] (sub (target o)))) (below after (target o)) ->
+  Permutation (replay (view_of before) (win_contract sub true after o)) (view_of after).
+Proof. intros C Hn Ho after P. apply win_replay_cov; try assumption. intros _. exact P. Qed.
+
 Theorem win_replay_full_wf :
   forall (sub : path -> tree) (before : fs) (o : op),
   wf_fs before -> op_names_ok o = true -> op_ok before o = true ->
@@ -141,9 +158,6 @@ Proof. intros sub before o W. apply win_replay_full. now apply wf_closed. Qed.
 (* ---------------------------------------------------------------- histories, one operation per batch *)
 Require Import WD.Proofs.PlatClosedProofs.
 
-(* the tree the emitter walked for operation o lists (as a set) what lies below o's target *)
-Definition covers (sub : path -> tree) (after : fs) (o : op) : Prop :=
-  Permutation (map (fun x => (snd x, fst x)) (desc [] (sub (target o)))) (below after (target o)).
 
 (* subs: the walk oracle at each step (the tree changes from step to step) *)
 Fixpoint win_history (subs : list (path -> tree)) (f : fs) (ops : list op) : list aev :=
@@ -167,7 +181,7 @@ Proof.
   destruct subs as [|sub sr]; [destruct H|]. destruct H as (Hn & Ho & Hc & Hr).
   cbn [win_history fold_left]. rewrite replay_app.
   eapply Permutation_trans.
-  - apply replay_perm. apply win_replay_full; eassumption.
+  - apply replay_perm. apply win_replay_cov; eassumption.
   - apply IH; [now apply closed_apply | exact Hr].
 Qed.
 
